@@ -228,6 +228,7 @@ def run(chk):
     family(chk)
     qt_family(chk)
     const_ctl_family(chk)
+    edge_families(chk)
     flags_family(chk)
     nonfinite_family(chk)
     chk.cov["programs"] = len(cases)
@@ -395,6 +396,48 @@ def const_ctl_family(chk):
     chk.cov["constant_bodies_with_control_flow"] = {"programs": len(progs), "embedded": n_emb}
     if n_emb < 10:
         raise ToolError("only %d of the constant bodies were embedded: the family does not reach the static evaluator" % n_emb)
+
+
+# operators outside the documented subset applied to constants: rejected, or -- if a future version supports them -- the ECMAScript value; never another value
+UNSUPPORTED_CONST = [
+    ("ival", "-16 >>> 2", 1073741820), ("ival", "16 >>> 2", 4), ("ival", "4294967304 >>> 1", 4), ("ival", "-1 >>> 0", 4294967295), ("ival", "1 >>> 33", 0),
+    ("ival", "2 ** 10", 1024), ("ival", "2 ** -1", 0.5), ("dval", "2.0 ** 0.5", 2 ** 0.5), ("ival", "null ?? 3", 3), ("ival", "7 ?? 3", 7),
+    ("flag", "1 === 1", True), ("flag", "1 !== 1", False), ("flag", "\"1\" === \"1\"", True), ("ival", "(1, 2)", 2), ("ival", "+\"3\"", 3), ("ival", "~~5.7", 5),
+    ("flag", "\"a\" in [\"a\"]", False), ("ival", "typeof 1 == \"number\" ? 1 : 2", 1), ("ival", "void 0 ?? 4", 4), ("ival", "7 % -3", 1), ("ival", "-7 % 3", -1),
+    ("ival", "-7 / 2", -3), ("ival", "7 / -2", -3), ("dval", "7.0 / 2.0", 3.5), ("ival", "1 << 31", 2147483648), ("ival", "-1 >> 1", -1), ("ival", "5 & -2", 4), ("ival", "5 ^ -1", -6),
+]
+# doubles far beyond the 64-bit integer range and other edge values: what is embedded reads back as the same double
+BIG_DOUBLES = ["1e19", "1e21", "18446744073709551616.0", "1.7976931348623157e308", "-1e300", "-0.0", "9223372036854775808.0", "-9223372036854775809.0", "1e-320", "5e-324",
+               "4.9e-324", "123456789012345678901234567890.0", "0.1", "1e15", "1e16", "1e17", "9007199254740993.0", "1.5e300", "-1.25e-300", "2.5e18", "9.5e18"]
+
+
+def edge_families(chk):
+    reqs, meta = [], []
+    for prop, text, val in UNSUPPORTED_CONST:
+        reqs.append({"id": len(reqs), "src": P.HEAD + "  TSource { id: t0\n    %s: %s\n  }\n}\n" % (prop, text), "type_name": "Doc", "modes": ["generate"]})
+        meta.append((prop, text, val))
+    for text in BIG_DOUBLES:
+        reqs.append({"id": len(reqs), "src": P.HEAD + "  TSource { id: t0\n    dval: %s\n  }\n}\n" % text, "type_name": "Doc", "modes": ["generate"]})
+        meta.append(("dval", text, float(text)))
+    res = translate(reqs, metatypes=[VERIF_METATYPES])
+    for q, (prop, text, val) in zip(reqs, meta):
+        run_ = res[q["id"]]["generate"]
+        chk.count({"edge": text}, nontrivial=True)
+        if run_.get("panic") or not run_.get("ui"):
+            continue
+        got = ui_values(run_["ui"]).get("t0", {}).get(prop)
+        if not got:
+            if text in BIG_DOUBLES and not run_.get("n_errors"):
+                chk.violation("double constant %s is neither embedded nor diagnosed" % text, {"qml": q["src"]})
+            continue
+        el, attrs, txt, items = got[0]
+        try:
+            emb = {"true": True, "false": False}.get(txt, None) if el == "bool" else float(txt)
+        except ValueError:
+            emb = None
+        if emb is None or emb != val or (isinstance(val, bool) != isinstance(emb, bool)):
+            chk.violation("constant `%s` denotes %r but is embedded as <%s>%s</%s>" % (text, val, el, txt, el), {"qml": q["src"], "expected": val, "embedded": txt})
+    chk.cov["edge_constants"] = len(reqs)
 
 
 def family(chk):
